@@ -79,6 +79,7 @@ type opGen struct {
 	nvar     int
 	features map[string]bool
 	fragsOn  map[string][]string // fragment names by type condition (for re-spreading: MultiSpread)
+	usedIDVar bool
 }
 
 // GenOp draws a valid operation of the given kind ("query"/"mutation"/"subscription") against a schema.
@@ -244,6 +245,11 @@ func (g *opGen) args(fd *ast.FieldDefinition) string {
 		lit, val := g.literal(a.Type)
 		if g.o.Variables && g.r.Chance(1, 2) {
 			vn := fmt.Sprintf("v%d", g.nvar)
+			if !g.usedIDVar && g.r.Chance(1, 8) {
+				vn = "id" // a client variable that happens to be called like the executor's own $id
+				g.usedIDVar = true
+				g.features["variable-named-id"] = true
+			}
 			g.nvar++
 			def := "$" + vn + ": " + a.Type.String()
 			if g.o.VarDefaults && g.r.Chance(1, 3) {
